@@ -3,6 +3,7 @@ package zygo
 import (
 	"fmt"
 	"reflect"
+	"sort"
 	"time"
 )
 
@@ -154,8 +155,8 @@ func (r *GoStructRegistryType) EnvAvail(env *Zlisp) {
 	if len(r.LazyFunc) == 0 {
 		return
 	}
-	for nm, fn := range r.LazyFunc {
-		env.AddFunction(nm, fn)
+	for _, nm := range sortedKeys(r.LazyFunc) {
+		env.AddFunction(nm, r.LazyFunc[nm])
 	}
 	// clear it out, all added.
 	r.LazyFunc = make(map[string]ZlispUserFunction)
@@ -397,13 +398,26 @@ func TypeListFunction(env *Zlisp, name string, args []Sexp) (Sexp, error) {
 }
 
 func (env *Zlisp) ImportBaseTypes() {
-	for _, e := range GoStructRegistry.Builtin {
+	// sorted, so that the symbols are interned in the same order every time.
+	for _, k := range sortedKeys(GoStructRegistry.Builtin) {
+		e := GoStructRegistry.Builtin[k]
 		env.AddGlobal(e.RegisteredName, e)
 	}
 
-	for _, e := range GoStructRegistry.Userdef {
+	for _, k := range sortedKeys(GoStructRegistry.Userdef) {
+		e := GoStructRegistry.Userdef[k]
 		env.AddGlobal(e.RegisteredName, e)
 	}
+}
+
+// sortedKeys returns the keys of m in increasing order.
+func sortedKeys[V any](m map[string]V) []string {
+	keys := make([]string, 0, len(m))
+	for k := range m {
+		keys = append(keys, k)
+	}
+	sort.Strings(keys)
+	return keys
 }
 
 func compareRegisteredTypes(a *RegisteredType, bs Sexp) (int, error) {
